@@ -337,3 +337,78 @@ func c12slotkey(c *core.Ctx, r *core.Reporter) {
 		}
 	}
 }
+
+// c12nilvalue: nil is a value. A slot filled with nil - by an initarg given as nil, by :initform nil - is bound;
+// only the Unbound marker says "no value". Every call of SlotValue in the module is an instance: its value is
+// never compared with nil (the test that distinguishes "no value" is the comparison with slip.Unbound, or the
+// second result). slot-boundp with `v != nil && v != Unbound` reports a nil slot as unbound while slot-value
+// returns nil for it.
+func c12nilvalue(c *core.Ctx, r *core.Reporter) {
+	const rule = "C12.nilvalue"
+	r.Rule(rule, "the value a SlotValue call returns is never compared with nil: nil is a slot value like any other and a slot holding it is bound; only the Unbound marker (or the call's second result) means there is no value", 10)
+	for _, fn := range c.ModuleFuncs() {
+		if fn.Blocks == nil || takesTestingT(fn) {
+			continue
+		}
+		n := 0
+		for _, b := range fn.Blocks {
+			for _, in := range b.Instrs {
+				call, ok := in.(*ssa.Call)
+				if !ok {
+					continue
+				}
+				name := ""
+				if call.Call.IsInvoke() {
+					name = call.Call.Method.Name()
+				} else if cal := call.Call.StaticCallee(); cal != nil && cal.Pkg != nil && core.InModule(cal.Pkg.Pkg) {
+					name = cal.Name()
+				}
+				if name != "SlotValue" {
+					continue
+				}
+				if _, isTuple := call.Type().(*types.Tuple); !isTuple {
+					continue
+				}
+				n++
+				bad := ""
+				if call.Referrers() != nil {
+					for _, rf := range *call.Referrers() {
+						ex, ok := rf.(*ssa.Extract)
+						if !ok || ex.Index != 0 {
+							continue
+						}
+						for _, v := range valueAliases(ex, nil) {
+							if v.Referrers() == nil {
+								continue
+							}
+							for _, r2 := range *v.Referrers() {
+								bo, ok := r2.(*ssa.BinOp)
+								if !ok || (bo.Op != token.EQL && bo.Op != token.NEQ) {
+									continue
+								}
+								other := bo.Y
+								if other == v {
+									other = bo.X
+								}
+								if k, ok := other.(*ssa.Const); ok && k.IsNil() {
+									bad = c.Pos(bo.Pos())
+								}
+							}
+						}
+					}
+				}
+				key := fmt.Sprintf("%s|SlotValue #%d", core.SSAName(fn), n)
+				if why, ok := nilValueExceptions[key]; ok {
+					r.Hold(rule, key, c.Pos(call.Pos()), "exception by reading: "+why)
+					continue
+				}
+				r.Decide(bad == "", rule, key, c.Pos(call.Pos()), fmt.Sprintf("the value is compared with nil at %q", bad))
+			}
+		}
+	}
+}
+
+// nilValueExceptions: one construct each.
+var nilValueExceptions = map[string]string{
+	"pkg/cl.SimpleCondMsg|SlotValue #1": "chooses which text to build for a condition: a message of nil means no message text was given and the format-control is used; boundness is not reported to anybody",
+}
